@@ -4,6 +4,7 @@ PROPS = {
     "C06": dict(pkg="walletf", level="exploration", stages=[
         direct("claim-routing", "TestC06ClaimRouting"),
         rapid("payouts", "TestC06Payouts", dict(shards=8, checks=250, timeout=900), dict(shards=16, checks=3000, timeout=6000)),
+        rapid("v2payouts", "TestC06V2Payouts", dict(shards=8, checks=250, timeout=900), dict(shards=16, checks=3000, timeout=6000)),
         rapid("rapid", "TestC06", dict(shards=16, checks=350, timeout=900), dict(shards=16, checks=3000, timeout=6000)),
     ]),
     "C07": dict(pkg="walletf", level="exploration", stages=[
